@@ -193,7 +193,7 @@ class Prov:
                             sl.aggs.add(("tuple",))
                     if rv.k == "discr":
                         sl.discr.add(rv.j.get("adt"))
-                    if rv.k == "bin":
+                    if rv.k in ("bin", "un"):
                         sl.binops.add(rv.op)
                     if rv.k == "cast":
                         sl.casts.add(rv.j.get("kind"))
